@@ -1,14 +1,20 @@
 package main
 
 // C11 — the loader reads nothing beyond the root unless external refs are allowed.
-// Real code exercised: openapi3.Loader.LoadFromFile / LoadFromURI / LoadFromDataWithPath / LoadFromData with a
-// recording ReadFromURIFunc that serves an in-memory file universe described by the case.
+// Real code exercised: openapi3.Loader.LoadFromFile / LoadFromURI / LoadFromDataWithPath / LoadFromData /
+// LoadFromIoReader with a recording ReadFromURIFunc that serves an in-memory file universe described by the case;
+// every case is loaded a second time with the recording reader behind openapi3.URIMapCache.
 //
 // A case carries a generator-level description "g" (files = trees of OpenAPI elements with $ref texts) from
 // which BOTH the concrete JSON documents (for the library) and the abstract view sent to the Lean driver
-// (node tables in resolver order, typed/raw fragment tables, parsed reference texts) are derived by c11Derive.
+// (node tables in resolver order — one view of an element file per kind of reference it can be read through —,
+// typed/raw fragment tables, parsed reference texts) are derived by c11Derive.
+//
+// The positions and their order (c11ChildKind, c11OrderKey, c11MediaTypeKey) follow the table WalkSites regenerated
+// from openapi3/loader.go (lean/KinModel/Gen/WalkSites.lean; expectation: expectedWalk in lean/KinModel/Reads.lean).
 
 import (
+	"bytes"
 	"os"
 	"encoding/json"
 	"fmt"
@@ -26,10 +32,13 @@ import (
 func init() {
 	hx.Register(&hx.Prop{
 		ID: "C11",
-		Rule: "exhaustive: a skeleton document with every position the ten resolvers visit (≈60 positions: the nine component kinds, nested response headers/links/examples, " +
-			"parameter and media-type schemas, callbacks, path items, operations) × 16 reference spellings (relative, ./, ../ escape, sub-directory, absolute, file://, http, https, " +
-			"scheme-relative, same path as the root on another host, whole-file and fragment forms, missing target) × 3 entry points × both switch settings; plus cross-document shapes " +
-			"(chains, cycles, element files with '#'-references, unwalked positions) and a seeded random stream of multi-file universes. " +
+		Rule: "exhaustive: a skeleton document with every position ResolveRefsIn, the ten resolvers and resolveContentRefs/resolveExampleRefs visit (table WalkSites: the nine component " +
+			"collections incl. links, response headers/links, examples of parameters, headers and media types, content of parameters and headers, encoding headers, schemas, callbacks, path items, " +
+			"operations) × 16 reference spellings (relative, ./, ../ escape, sub-directory, absolute, file://, http, https, " +
+			"scheme-relative, same path as the root on another host, whole-file and fragment forms, missing target) × 3 entry points × both switch settings (quick: a quarter of the grid); " +
+			"enumerated families: $ref path items whose target is itself a $ref (target resolved / sorting later / in progress), a reference text in progress for one kind and met under another kind " +
+			"(6 shapes × every sub-position), targets only the raw re-read reaches; hand-made cross-document shapes (corpus) and a seeded random stream of multi-file universes " +
+			"(element files are also read through references of other kinds). Every case is loaded twice: recording reader directly and behind openapi3.URIMapCache. " +
 			"Non-trivial = the model reports a branch other than the default (a read, a denial, a cache hit, a re-read, an in-progress skip, …).",
 		Exhaustive: true,
 		Gen:        genC11,
@@ -39,8 +48,8 @@ func init() {
 		TimeoutMs:  10000,
 		Assumptions: []string{
 			"reference texts are parsed by net/url on the harness side (scheme, host, path, fragment are inputs of the model)",
-			"fragment references target documents, whole-file references target element files (or documents read as an element); deep fragments never cross a $ref node",
-			"position tables and visiting order of the resolvers are encoded in the harness (c11Slots/c11OrderKey) and validated by the comparison of read sequences",
+			"fragment references target documents, whole-file references target element files (of the same or another kind; a callback reference only a callback file) or documents read as an element; deep fragments never cross a $ref node; no null elements; inline path items are non-empty",
+			"position tables and visiting order of the resolvers are encoded in the harness (c11ChildKind/c11OrderKey), written after the regenerated table WalkSites (obligation walk_sites_as_modelled) and validated by the comparison of read sequences",
 		},
 	})
 }
@@ -58,7 +67,8 @@ func c11AddKid(e c11El, slot []string, kid c11El) {
 	e["kids"] = append(jlist(e["kids"]), map[string]any{"slot": s, "el": kid})
 }
 
-var c11Colls = []string{"headers", "parameters", "requestBodies", "responses", "schemas", "securitySchemes", "examples", "callbacks"}
+// the component collections in the order ResolveRefsIn visits them (links last, since cbb0d05)
+var c11Colls = []string{"headers", "parameters", "requestBodies", "responses", "schemas", "securitySchemes", "examples", "callbacks", "links"}
 var c11CollKind = map[string]string{"headers": "header", "parameters": "parameter", "requestBodies": "requestBody", "responses": "response",
 	"schemas": "schema", "securitySchemes": "securityScheme", "examples": "example", "callbacks": "callback", "links": "link"}
 var c11KindColl = map[string]string{"header": "headers", "parameter": "parameters", "requestBody": "requestBodies", "response": "responses",
@@ -73,8 +83,92 @@ func idx2(s string) string {
 	return fmt.Sprintf("%03d", n)
 }
 
-// c11OrderKey: the order in which the resolver of parentKind visits the sub-element at slot.
+// c11MediaTypeChild: the kind of the element at content/<media type>/rest ("" = no position a resolver visits)
+func c11MediaTypeChild(rest []string) string {
+	switch {
+	case len(rest) == 2 && rest[0] == "examples":
+		return "example"
+	case len(rest) == 1 && rest[0] == "schema":
+		return "schema"
+	case len(rest) == 4 && rest[0] == "encoding" && rest[2] == "headers":
+		return "header"
+	}
+	return ""
+}
+
+// c11ChildKind: the kind of element the resolver of parentKind expects at slot ("" = it visits no such position).
+func c11ChildKind(parentKind string, slot []string) string {
+	n := len(slot)
+	if n == 0 {
+		return ""
+	}
+	switch parentKind {
+	case "schema":
+		switch slot[0] {
+		case "items", "additionalProperties", "not":
+			if n == 1 {
+				return "schema"
+			}
+		case "properties", "allOf", "anyOf", "oneOf":
+			if n == 2 {
+				return "schema"
+			}
+		}
+	case "header", "parameter":
+		switch {
+		case n == 1 && slot[0] == "schema":
+			return "schema"
+		case n == 2 && slot[0] == "examples":
+			return "example"
+		case n >= 3 && slot[0] == "content":
+			return c11MediaTypeChild(slot[2:])
+		}
+	case "requestBody":
+		if n >= 3 && slot[0] == "content" {
+			return c11MediaTypeChild(slot[2:])
+		}
+	case "response":
+		switch {
+		case n == 2 && slot[0] == "headers":
+			return "header"
+		case n == 2 && slot[0] == "links":
+			return "link"
+		case n >= 3 && slot[0] == "content":
+			return c11MediaTypeChild(slot[2:])
+		}
+	case "callback":
+		if n == 1 {
+			return "pathItem"
+		}
+	case "pathItem":
+		switch {
+		case n == 2 && slot[0] == "parameters":
+			return "parameter"
+		case n == 3 && c11Ops[slot[0]] && slot[1] == "parameters":
+			return "parameter"
+		case n == 2 && c11Ops[slot[0]] && slot[1] == "requestBody":
+			return "requestBody"
+		case n == 3 && c11Ops[slot[0]] && slot[1] == "responses":
+			return "response"
+		case n == 3 && c11Ops[slot[0]] && slot[1] == "callbacks":
+			return "callback"
+		}
+	case "doc":
+		switch {
+		case n == 3 && slot[0] == "components":
+			return c11CollKind[slot[1]]
+		case n == 2 && slot[0] == "paths":
+			return "pathItem"
+		}
+	}
+	return ""
+}
+
+// c11OrderKey: the order in which the resolver of parentKind visits the sub-element at slot (nil = not visited).
 func c11OrderKey(parentKind string, slot []string) []string {
+	if c11ChildKind(parentKind, slot) == "" {
+		return nil
+	}
 	switch parentKind {
 	case "schema":
 		switch slot[0] {
@@ -93,29 +187,29 @@ func c11OrderKey(parentKind string, slot []string) []string {
 		case "oneOf":
 			return []string{"6", idx2(slot[1])}
 		}
-	case "header":
-		return []string{"0"}
-	case "parameter":
+	case "header", "parameter":
+		// resolveContentRefs(content); schema; resolveExampleRefs(examples)
+		switch slot[0] {
+		case "content":
+			return append([]string{"0", slot[1]}, c11MediaTypeKey(slot[2:])...)
+		case "schema":
+			return []string{"1"}
+		case "examples":
+			return []string{"2", slot[1]}
+		}
+	case "requestBody":
 		if slot[0] == "content" {
+			return append([]string{slot[1]}, c11MediaTypeKey(slot[2:])...)
+		}
+	case "response":
+		switch slot[0] {
+		case "headers":
 			return []string{"0", slot[1]}
+		case "content":
+			return append([]string{"1", slot[1]}, c11MediaTypeKey(slot[2:])...)
+		case "links":
+			return []string{"2", slot[1]}
 		}
-		return []string{"1"}
-	case "requestBody", "response":
-		pre := []string{}
-		if parentKind == "response" {
-			switch slot[0] {
-			case "headers":
-				return []string{"0", slot[1]}
-			case "links":
-				return []string{"2", slot[1]}
-			}
-			pre = []string{"1"}
-		}
-		// content, mt, (examples, n | schema)
-		if slot[2] == "examples" {
-			return append(pre, slot[1], "0", slot[3])
-		}
-		return append(pre, slot[1], "1")
 	case "callback":
 		return []string{slot[0]}
 	case "pathItem":
@@ -145,6 +239,27 @@ func c11OrderKey(parentKind string, slot []string) []string {
 		return []string{"1", slot[1]}
 	}
 	return nil
+}
+
+// c11MediaTypeKey: resolveContentRefs visits, per media type, the examples, the schema, then the headers of the
+// encodings (rest = the slot below content/<media type>).
+func c11MediaTypeKey(rest []string) []string {
+	if len(rest) == 0 {
+		return nil
+	}
+	switch rest[0] {
+	case "examples":
+		if len(rest) == 2 {
+			return []string{"0", rest[1]}
+		}
+	case "schema":
+		return []string{"1"}
+	case "encoding":
+		if len(rest) == 4 && rest[2] == "headers" {
+			return []string{"2", rest[1], rest[3]}
+		}
+	}
+	return []string{"~unwalked"}
 }
 
 func lessKey(a, b []string) bool {
@@ -272,7 +387,12 @@ func c11RefJSON(text string) (map[string]any, bool) {
 
 // node builds the abstract node of e; ptr is its JSON pointer in the file; underCb: a strict descendant of a callback
 func (d *c11Deriver) node(e c11El, ptr string, underCb bool, isDoc bool, isRoot bool) map[string]any {
-	kind := jstr(e, "k")
+	return d.nodeAs(e, jstr(e, "k"), ptr, underCb, isDoc, isRoot)
+}
+
+// nodeAs: the element e as the resolver of `kind` sees it (kind differs from e's own kind when an element file is
+// read through a reference of another kind: only the positions both kinds share are visited)
+func (d *c11Deriver) nodeAs(e c11El, kind string, ptr string, underCb bool, isDoc bool, isRoot bool) map[string]any {
 	id := d.nextID
 	d.nextID++
 	n := map[string]any{"i": id, "k": kind, "r": nil, "c": []any{}}
@@ -289,8 +409,8 @@ func (d *c11Deriver) node(e c11El, ptr string, underCb bool, isDoc bool, isRoot 
 		var kids []ok
 		for _, k := range jlist(e["kids"]) {
 			key := c11OrderKey(kind, slotOf(k))
-			if key == nil {
-				continue // unwalked position: invisible to the resolvers
+			if key == nil || c11ChildKind(kind, slotOf(k)) != jstr(elOf(k), "k") {
+				continue // not a position the resolver of this kind visits
 			}
 			kids = append(kids, ok{key, k})
 		}
@@ -318,7 +438,7 @@ func (d *c11Deriver) node(e c11El, ptr string, underCb bool, isDoc bool, isRoot 
 
 func c11FileAbstract(f map[string]any) map[string]any {
 	view := jstr(f, "view")
-	out := map[string]any{"parses": view != "bad", "tops": []any{}, "elem": []any{}, "extra": []any{}, "typed": []any{}, "raw": []any{}}
+	out := map[string]any{"parses": view != "bad", "tops": []any{}, "elem": []any{}, "extra": []any{}, "typed": []any{}, "raw": []any{}, "conflict": false, "emptyPI": false}
 	if view == "bad" {
 		return out
 	}
@@ -326,11 +446,34 @@ func c11FileAbstract(f map[string]any) map[string]any {
 	c11Normalize(root)
 	d := &c11Deriver{}
 	n := d.node(root, "", false, view == "doc", true)
+	elems := []any{}
 	if view == "doc" {
 		out["tops"] = n["c"]
 	} else {
 		out["elem"] = n["c"]
+		// the same file read through a reference of another kind (a callback reads every key as a path item: not generated)
+		for _, k := range c11Kinds {
+			if k == view {
+				elems = append(elems, []any{k, n["c"]})
+			} else if k != "callback" {
+				d2 := &c11Deriver{nextID: 100000}
+				if cs := jlist(d2.nodeAs(root, k, "", false, false, true)["c"]); len(cs) > 0 {
+					elems = append(elems, []any{k, cs})
+				}
+			}
+		}
 	}
+	out["elems"] = elems
+	hasSchema, hasContent := false, false
+	for _, k := range jlist(root["kids"]) {
+		if sl := slotOf(k); len(sl) > 0 {
+			hasSchema = hasSchema || sl[0] == "schema"
+			hasContent = hasContent || sl[0] == "content"
+		}
+	}
+	out["conflict"] = view != "doc" && hasSchema && hasContent
+	// read as a path item: empty unless the JSON has a description (c11Base) or path-item members
+	out["emptyPI"] = !(view == "pathItem" || view == "response" || view == "requestBody")
 	extra := []any{}
 	if defs, ok := f["defs"].(map[string]any); ok {
 		names := []string{}
@@ -371,20 +514,6 @@ func c11FileBody(f map[string]any) []byte {
 		}
 		obj["definitions"] = dm
 	}
-	for i, t := range toStrs(f["dead"]) {
-		// references at positions no resolver visits: components.links, and a header's examples
-		comps, _ := obj["components"].(map[string]any)
-		if comps == nil {
-			comps = map[string]any{}
-			obj["components"] = comps
-		}
-		links, _ := comps["links"].(map[string]any)
-		if links == nil {
-			links = map[string]any{}
-			comps["links"] = links
-		}
-		links[fmt.Sprintf("Dead%d", i)] = map[string]any{"$ref": t}
-	}
 	b, _ := json.Marshal(obj)
 	return b
 }
@@ -404,11 +533,15 @@ func c11Derive(c hx.Case) hx.Case {
 	g, _ := c["g"].(map[string]any)
 	files := jlist(g["files"])
 	c["allowed"] = jbool(g, "allowed")
-	c["entry"] = jstr(g, "entry")
+	entry := jstr(g, "entry")
+	if entry == "reader" {
+		entry = "data" // LoadFromIoReader (and LoadFromStdin) read everything and call LoadFromData
+	}
+	c["entry"] = entry
 	c["rootInStore"] = jbool(g, "rootInStore")
 	rootText := jstr(g, "root")
 	c["rootLoc"] = nil
-	if jstr(g, "entry") != "data" {
+	if entry != "data" {
 		uj, _ := c11UrlJSON(rootText)
 		c["rootLoc"] = uj
 	}
@@ -419,7 +552,7 @@ func c11Derive(c hx.Case) hx.Case {
 		abs := c11FileAbstract(f)
 		if i == 0 {
 			c["rootFile"] = abs
-			if jstr(g, "entry") == "data" && jbool(g, "rootInStore") {
+			if entry == "data" && jbool(g, "rootInStore") {
 				// LoadFromData: the root has no location; its file may still sit in the universe under its name
 				uj, _ := c11UrlJSON(jstr(f, "loc"))
 				store = append(store, map[string]any{"loc": uj, "file": abs})
@@ -457,31 +590,44 @@ func runC11(c hx.Case) any {
 			bodies[c11Key(u)] = b
 		}
 	}
-	log := []string{}
-	loader := openapi3.NewLoader()
-	loader.IsExternalRefsAllowed = jbool(g, "allowed")
-	loader.ReadFromURIFunc = func(_ *openapi3.Loader, u *url.URL) ([]byte, error) {
-		k := c11Key(u)
-		log = append(log, k)
-		if b, ok := bodies[k]; ok {
-			return b, nil
+	// two loads: the recording reader directly, and the recording reader behind openapi3.URIMapCache (the cache layer of
+	// DefaultReadFromURI): the second log is what reaches the wrapped reader
+	load := func(cached bool) ([]string, error) {
+		log := []string{}
+		loader := openapi3.NewLoader()
+		loader.IsExternalRefsAllowed = jbool(g, "allowed")
+		rec := func(_ *openapi3.Loader, u *url.URL) ([]byte, error) {
+			k := c11Key(u)
+			log = append(log, k)
+			if b, ok := bodies[k]; ok {
+				return b, nil
+			}
+			return nil, fmt.Errorf("no such file %s", k)
 		}
-		return nil, fmt.Errorf("no such file %s", k)
-	}
-	var err error
-	_, ru := c11UrlJSON(jstr(g, "root"))
-	switch jstr(g, "entry") {
-	case "file":
-		if ru != nil && ru.Scheme == "" && ru.Host == "" {
-			_, err = loader.LoadFromFile(ru.Path)
-		} else {
-			_, err = loader.LoadFromURI(ru)
+		loader.ReadFromURIFunc = rec
+		if cached {
+			loader.ReadFromURIFunc = openapi3.URIMapCache(rec)
 		}
-	case "dataWithPath":
-		_, err = loader.LoadFromDataWithPath(rootBody, ru)
-	default:
-		_, err = loader.LoadFromData(rootBody)
+		var err error
+		_, ru := c11UrlJSON(jstr(g, "root"))
+		switch jstr(g, "entry") {
+		case "file":
+			if ru != nil && ru.Scheme == "" && ru.Host == "" {
+				_, err = loader.LoadFromFile(ru.Path)
+			} else {
+				_, err = loader.LoadFromURI(ru)
+			}
+		case "dataWithPath":
+			_, err = loader.LoadFromDataWithPath(rootBody, ru)
+		case "reader":
+			_, err = loader.LoadFromIoReader(bytes.NewReader(rootBody))
+		default:
+			_, err = loader.LoadFromData(rootBody)
+		}
+		return log, err
 	}
+	log, err := load(false)
+	clog, cerr := load(true)
 	es := ""
 	if err != nil {
 		es = err.Error()
@@ -489,7 +635,7 @@ func runC11(c hx.Case) any {
 			es = es[:160]
 		}
 	}
-	return map[string]any{"log": log, "ok": err == nil, "err": es}
+	return map[string]any{"log": log, "ok": err == nil, "err": es, "cacheLog": clog, "cacheOk": cerr == nil}
 }
 
 // c11SpecHolds: the property on an observed read sequence, from the spec data computed by the Lean driver.
@@ -566,9 +712,27 @@ func cmpC11(c hx.Case, impl any, reply map[string]any) hx.Verdict {
 		}
 		v.Detail = fmt.Sprintf("reads: impl %v ok=%v (%s) vs model %v ok=%v", ilog, jbool(im, "ok"), jstr(im, "err"), mlog, jbool(model, "ok"))
 	}
+	if jbool(spec, "uniform") && len(jlist(reply["excl"])) > 0 {
+		v.IM = false
+		v.Detail = "model: a uniform universe inside the exclusion class (contradicts uniform_never_foreign)"
+	}
+	iclog, mclog := toStrs(im["cacheLog"]), toStrs(model["cacheLog"])
+	if v.IM && (!sameStrs(iclog, mclog, true) || jbool(im, "cacheOk") != jbool(model, "ok")) {
+		v.IM = false
+		v.Detail = fmt.Sprintf("reads behind URIMapCache: impl %v ok=%v vs model %v ok=%v", iclog, jbool(im, "cacheOk"), mclog, jbool(model, "ok"))
+	}
+	if ok, why := c11SpecHolds(iclog, spec); !ok {
+		v.IS = false
+		v.Detail = "behind URIMapCache: " + why + fmt.Sprintf(" (reads %v)", iclog)
+	}
 	if ok, why := c11SpecHolds(ilog, spec); !ok {
 		v.IS = false
 		v.Detail = why + fmt.Sprintf(" (reads %v)", ilog)
+	}
+	if !v.IS && os.Getenv("C11_DEBUG") == "2" {
+		g, _ := c["g"].(map[string]any)
+		b, _ := json.Marshal(g)
+		fmt.Fprintf(os.Stderr, "NOTSPEC %s\n  g=%s\n", v.Detail, b)
 	}
 	return v
 }
@@ -599,17 +763,25 @@ func c11Slots(kind string) []c11Slot {
 			{[]string{"additionalProperties"}, "schema"}, {[]string{"not"}, "schema"}, {[]string{"allOf", "0"}, "schema"}, {[]string{"allOf", "1"}, "schema"},
 			{[]string{"anyOf", "0"}, "schema"}, {[]string{"oneOf", "0"}, "schema"}}
 	case "header":
-		return []c11Slot{{[]string{"schema"}, "schema"}}
+		return []c11Slot{{[]string{"schema"}, "schema"}, {[]string{"examples", "e1"}, "example"},
+			{[]string{"content", "application/json", "schema"}, "schema"}, {[]string{"content", "application/json", "examples", "e1"}, "example"},
+			{[]string{"content", "application/json", "encoding", "f", "headers", "h1"}, "header"}}
 	case "parameter":
-		// a parameter has either a schema or a content map (both is a load error): the callers pick one
-		return []c11Slot{{[]string{"schema"}, "schema"}, {[]string{"content", "application/json", "schema"}, "schema"}}
+		// a parameter has either a schema or a content map (both is a load error): the callers pick one group (c11ParamGroup)
+		return []c11Slot{{[]string{"schema"}, "schema"}, {[]string{"content", "application/json", "schema"}, "schema"},
+			{[]string{"examples", "e1"}, "example"}, {[]string{"examples", "e2"}, "example"},
+			{[]string{"content", "application/json", "examples", "e1"}, "example"},
+			{[]string{"content", "application/json", "encoding", "f", "headers", "h1"}, "header"}}
 	case "requestBody":
 		return []c11Slot{{[]string{"content", "application/json", "examples", "e1"}, "example"}, {[]string{"content", "application/json", "schema"}, "schema"},
-			{[]string{"content", "text/plain", "schema"}, "schema"}}
+			{[]string{"content", "text/plain", "schema"}, "schema"},
+			{[]string{"content", "application/json", "encoding", "f", "headers", "h1"}, "header"},
+			{[]string{"content", "application/json", "encoding", "g", "headers", "h1"}, "header"}}
 	case "response":
 		return []c11Slot{{[]string{"headers", "h1"}, "header"}, {[]string{"headers", "h2"}, "header"},
 			{[]string{"content", "application/json", "examples", "e1"}, "example"}, {[]string{"content", "application/json", "schema"}, "schema"},
-			{[]string{"links", "l1"}, "link"}}
+			{[]string{"links", "l1"}, "link"},
+			{[]string{"content", "application/json", "encoding", "f", "headers", "h1"}, "header"}}
 	case "callback":
 		return []c11Slot{{[]string{"evt"}, "pathItem"}, {[]string{"evt2"}, "pathItem"}}
 	case "pathItem":
@@ -627,6 +799,17 @@ func c11Slots(kind string) []c11Slot {
 		return out
 	}
 	return nil
+}
+
+// c11ParamGroup: the slots of a parameter that go with a content map, or those that go with a schema
+func c11ParamGroup(sl []c11Slot, content bool) []c11Slot {
+	out := []c11Slot{}
+	for _, s := range sl {
+		if (s.slot[0] == "content") == content {
+			out = append(out, s)
+		}
+	}
+	return out
 }
 
 // c11Resolve mirrors resolvePathWithRef for the GENERATOR only (to decide which files to create); a mistake
@@ -675,14 +858,23 @@ func (u *c11Uni) refText(kind string, base string, depth int) string {
 		}
 		return "#/components/" + c11KindColl[kind] + "/" + hx.Pick(r, []string{"A", "B"})
 	case kind == "pathItem" && r.Chance(15):
+		if r.Chance(20) {
+			return "#/components/callbacks/" + hx.Pick(r, []string{"A", "B"}) + "/evt"
+		}
 		return "#/paths/" + hx.Pick(r, []string{"~1x", "~1y", "~1z"})
 	case r.Chance(45): // whole file
 		name := c11ElemName[kind]
+		view := kind
 		if r.Chance(8) && kind != "callback" { // a document does not unmarshal as a callback (a map of path items)
 			name = hx.Pick(r, []string{"root.json", "d.json", "bad.json", "missing.json"})
+		} else if r.Chance(10) && kind != "callback" {
+			// the element file of ANOTHER kind: the resolver visits the positions both kinds share (the same text may then
+			// be in progress for one kind and met again under the other)
+			view = hx.Pick(r, []string{"header", "parameter", "requestBody", "response", "schema", "example", "link"})
+			name = c11ElemName[view]
 		}
 		t := dir + name
-		u.ensure(c11Resolve(base, t), kind, depth)
+		u.ensure(c11Resolve(base, t), view, depth)
 		return t
 	default: // fragment into a document
 		name := hx.Pick(r, []string{"d.json", "d.json", "root.json", "e.json", "bad.json"})
@@ -690,17 +882,22 @@ func (u *c11Uni) refText(kind string, base string, depth int) string {
 		t := dir + name
 		u.ensure(c11Resolve(base, t), "doc", depth)
 		if kind == "pathItem" {
+			if r.Chance(15) {
+				return t + "#/components/callbacks/" + hx.Pick(r, []string{"A", "B"}) + "/" + hx.Pick(r, []string{"evt", "evt2"}) // below a callback: raw re-read only
+			}
 			return t + "#/paths/" + hx.Pick(r, []string{"~1x", "~1y"})
 		}
 		switch r.Intn(12) {
 		case 0:
 			return t + "#/components/" + c11KindColl[kind] + "/Nope"
 		case 3:
+			// deep fragments go through the path "/deep", which is never a $ref in a generated document: the typed drill
+			// follows resolved references (Value, assigned path items), which the fragment tables do not describe
 			if kind == "response" {
-				return t + "#/paths/~1x/get/responses/200"
+				return t + "#/paths/~1deep/get/responses/200"
 			}
-			if kind == "pathItem" || kind == "callback" {
-				return t + "#/paths/~1x/get/callbacks/cb1"
+			if kind == "callback" {
+				return t + "#/paths/~1deep/get/callbacks/cb1"
 			}
 		}
 		return t + "#/components/" + c11KindColl[kind] + "/" + hx.Pick(r, []string{"A", "B"})
@@ -728,8 +925,7 @@ func (u *c11Uni) el(kind string, base string, depth int, pref int) c11El {
 		p = 20
 	}
 	if kind == "parameter" {
-		i := r.Intn(2)
-		slots = slots[i : i+1]
+		slots = c11ParamGroup(slots, r.Intn(2) == 1)
 	}
 	for _, s := range slots {
 		if r.Chance(p) {
@@ -782,7 +978,7 @@ func (u *c11Uni) docOrElem(view string, loc string, depth int) c11El {
 		e := c11NewEl(view, "")
 		sl := c11Slots(view)
 		if view == "parameter" {
-			sl = sl[:1]
+			sl = c11ParamGroup(sl, u.r.Chance(30))
 		}
 		for _, s := range sl {
 			if u.r.Chance(50) {
@@ -801,15 +997,25 @@ func (u *c11Uni) docOrElem(view string, loc string, depth int) c11El {
 			c11AddKid(e, s.slot, u.el(s.kind, loc, depth+1, pref))
 		}
 	}
+	if u.r.Chance(35) {
+		// an inline path item (its own sub-elements may be references): the target of deep fragments
+		pi := c11NewEl("pathItem", "")
+		for _, s := range c11Slots("pathItem") {
+			if u.r.Chance(60) {
+				c11AddKid(pi, s.slot, u.el(s.kind, loc, depth+2, pref))
+			}
+		}
+		c11AddKid(e, []string{"paths", "/deep"}, pi)
+	}
 	return e
 }
 
 func c11RandomCase(r *hx.Rng) hx.Case {
 	u := &c11Uni{r: r, byKey: map[string]bool{}, budget: 2 + r.Intn(5)}
 	rootLoc := hx.Pick(r, []string{"/r/a/root.json", "/r/a/root.json", "/r/a/root.json", "http://h.example/r/a/root.json", "r/a/root.json", "/r/a/sub/root.json", "file:///r/a/root.json"})
-	entry := hx.Pick(r, []string{"file", "file", "dataWithPath", "data"})
+	entry := hx.Pick(r, []string{"file", "file", "file", "dataWithPath", "dataWithPath", "data", "data", "reader"})
 	base := rootLoc
-	if entry == "data" {
+	if entry == "data" || entry == "reader" {
 		base = ""
 	}
 	pu, _ := url.Parse(rootLoc)
@@ -817,9 +1023,6 @@ func c11RandomCase(r *hx.Rng) hx.Case {
 	rootF := map[string]any{"loc": rootLoc, "view": "doc"}
 	u.files = append(u.files, rootF)
 	rootF["root"] = u.docOrElem("doc", base, 0)
-	if r.Chance(15) {
-		rootF["dead"] = []any{hx.Pick(r, []string{"ln.json", "http://h.example/r/a/ln.json", "d.json#/components/links/A"})}
-	}
 	g := map[string]any{"allowed": r.Chance(70), "entry": entry, "root": rootLoc, "rootInStore": entry == "file" || r.Chance(70), "files": u.files}
 	return c11Derive(hx.Case{"g": g})
 }
@@ -1013,8 +1216,9 @@ func c11Handmade() map[string]hx.Case {
 		c11Doc("/r/a/root.json", kid(c11With(c11NewEl("schema", ""), kid(c11NewEl("schema", "d.json#/components/schemas/A"), "properties", "a")), "components", "schemas", "A")),
 		c11Doc("/r/a/d.json", kid(c11With(c11NewEl("schema", ""), kid(c11NewEl("schema", "root.json#/components/schemas/A"), "properties", "a")), "components", "schemas", "A")))
 	for _, allowed := range []bool{false, true} {
-		rf := c11Doc("/r/a/root.json", kid(c11NewEl("schema", ""), "components", "schemas", "A"))
-		rf["dead"] = []any{"ln.json", "http://h.example/r/a/ln.json"}
+		// positions the loader did not walk before cbb0d05 (components.links): they are references like any other now
+		rf := c11Doc("/r/a/root.json", kid(c11NewEl("schema", ""), "components", "schemas", "A"),
+			kid(c11NewEl("link", "ln.json"), "components", "links", "Dead0"), kid(c11NewEl("link", "http://h.example/r/a/ln.json"), "components", "links", "Dead1"))
 		out[fmt.Sprintf("unwalked_components_links_%v", allowed)] = mk(allowed, "file", rf, c11Elem("/r/a/ln.json", "link"))
 	}
 	// a deep fragment through inline elements (typed drill through struct fields, maps, slices)
@@ -1025,6 +1229,49 @@ func c11Handmade() map[string]hx.Case {
 			kid(c11With(c11NewEl("schema", ""), kid(c11With(c11NewEl("schema", ""), kid(c11NewEl("schema", "s.json"), "allOf", "0")), "properties", "a")), "components", "schemas", "A"),
 			kid(c11With(c11NewEl("pathItem", ""), kid(c11With(c11NewEl("response", ""), kid(c11NewEl("header", "h.json"), "headers", "h1")), "get", "responses", "200")), "paths", "/x")),
 		c11Elem("/r/a/s.json", "schema"), c11Elem("/r/a/h.json", "header"))
+	// 9b25d89: a path item whose target is itself a $ref path item (fragment form, then whole-file form)
+	out["pathitem_ref_chain_fragment"] = mk(true, "file",
+		c11Doc("/r/a/root.json", kid(c11NewEl("pathItem", "b/d.json#/paths/~1x"), "paths", "/x")),
+		c11Doc("/r/a/b/d.json", kid(c11NewEl("pathItem", "../c/e.json#/paths/~1y"), "paths", "/x")),
+		c11Doc("/r/a/c/e.json", kid(c11With(c11NewEl("pathItem", ""), kid(c11NewEl("parameter", "p.json"), "parameters", "0")), "paths", "/y")),
+		c11Elem("/r/a/c/p.json", "parameter"), c11Elem("/r/a/p.json", "parameter"), c11Elem("/r/a/b/p.json", "parameter"))
+	out["pathitem_ref_chain_whole"] = mk(true, "file",
+		c11Doc("/r/a/root.json", kid(c11NewEl("pathItem", "b/d.json#/paths/~1x"), "paths", "/x")),
+		c11Doc("/r/a/b/d.json", kid(c11NewEl("pathItem", "sub/pi.json"), "paths", "/x")),
+		c11Elem("/r/a/b/sub/pi.json", "pathItem", kid(c11NewEl("parameter", "p.json"), "parameters", "0")),
+		c11Elem("/r/a/b/sub/p.json", "parameter"), c11Elem("/r/a/p.json", "parameter"), c11Elem("/r/a/b/p.json", "parameter"))
+	// f972c33: the raw re-read after a failed typed drill reads the REFERENCED document (twice in the log), not the referring one
+	out["reread_referenced_document_dangling"] = mk(true, "file",
+		c11Doc("/r/a/root.json", kid(c11NewEl("schema", "../b/d.json#/components/schemas/Nope"), "components", "schemas", "A"),
+			kid(c11NewEl("schema", "s.json"), "components", "schemas", "Nope")),
+		c11Doc("/r/b/d.json"), c11Elem("/r/a/s.json", "schema"), c11Elem("/r/b/s.json", "schema"))
+	out["reread_referenced_document_below_callback"] = mk(true, "file",
+		c11Doc("/r/a/root.json", kid(c11NewEl("pathItem", "../b/d.json#/components/callbacks/C/evt"), "paths", "/x")),
+		c11Doc("/r/b/d.json", kid(c11With(c11NewEl("callback", ""),
+			kid(c11With(c11NewEl("pathItem", ""), kid(c11NewEl("parameter", "p.json"), "parameters", "0")), "evt")), "components", "callbacks", "C")),
+		c11Elem("/r/b/p.json", "parameter"), c11Elem("/r/a/p.json", "parameter"))
+	// cbb0d05: the positions that are walked now, in an element file of another directory
+	out["new_positions_other_dir"] = mk(true, "file",
+		c11Doc("/r/a/root.json", kid(c11NewEl("header", "../b/h.json"), "components", "headers", "H"),
+			kid(c11NewEl("link", "../b/ln.json"), "components", "links", "L"),
+			kid(c11With(c11NewEl("parameter", ""), kid(c11NewEl("example", "../b/sub/ex.json"), "examples", "e1")), "components", "parameters", "P")),
+		c11Elem("/r/b/h.json", "header", kid(c11NewEl("example", "sub/ex.json"), "examples", "e1"),
+			kid(c11NewEl("header", "sub/h.json"), "content", "application/json", "encoding", "f", "headers", "h1"),
+			kid(c11NewEl("schema", "sub/s.json"), "content", "application/json", "schema")),
+		c11Elem("/r/b/sub/ex.json", "example"), c11Elem("/r/b/sub/h.json", "header"), c11Elem("/r/b/sub/s.json", "schema"), c11Elem("/r/b/ln.json", "link"))
+	// F-C11-1 (c): a reference left unresolved by the first walk (its text was in progress for ANOTHER kind, so the
+	// callback ignored the value: a04fe6c) is resolved by the second walk against the OUTER documentPath
+	out["foreign_base_second_walk_otherkind"] = mk(true, "file",
+		c11Doc("/r/a/root.json", kid(c11NewEl("header", "b/d.json#/components/headers/H"), "components", "headers", "R")),
+		c11Doc("/r/a/b/d.json", kid(c11NewEl("header", "x.json"), "components", "headers", "H")),
+		c11Elem("/r/a/b/x.json", "header", kid(c11NewEl("schema", "x.json"), "schema")),
+		c11Elem("/r/a/x.json", "schema"))
+	// F-C11-1 (d): a path item loaded from a file that is empty as a path item never counts as resolved (isEmpty), so the
+	// second walk (here of R, a '#'-reference to the callback H) resolves it again, against the root's location
+	out["foreign_base_empty_pathitem_second_walk"] = mk(true, "file",
+		c11Doc("/r/a/root.json", kid(c11NewEl("callback", "b/cb.json"), "components", "callbacks", "H"), kid(c11NewEl("callback", "#/components/callbacks/H"), "components", "callbacks", "R")),
+		c11Elem("/r/a/b/cb.json", "callback", kid(c11NewEl("pathItem", "e.json"), "evt")),
+		c11Elem("/r/a/b/e.json", "header"), c11Elem("/r/a/e.json", "pathItem"))
 	out["dangling_hash_ref_reread_off"] = mk(false, "file",
 		c11Doc("/r/a/root.json", kid(c11NewEl("schema", "#/components/schemas/Nope"), "components", "schemas", "A")))
 	return out
@@ -1061,8 +1308,8 @@ func genC11(ctx *hx.Ctx, emit func(hx.Case)) {
 		for si, sp := range spellings {
 			for ei, entry := range entries {
 				for _, allowed := range []bool{false, true} {
-					if !ctx.Thorough() && (pi+si+ei)%3 != 0 && !(allowed == false && sp.fragment && si >= 12) {
-						continue // quick tier: a third of the grid (all of the remote fragment spellings with the switch off)
+					if !ctx.Thorough() && (pi+si+ei)%4 != 0 && !(allowed == false && sp.fragment && si >= 12) {
+						continue // quick tier: a quarter of the grid (all of the remote fragment spellings with the switch off)
 					}
 					root := c11_deepCopy(skel).(map[string]any)
 					var text string
@@ -1105,13 +1352,192 @@ func genC11(ctx *hx.Ctx, emit func(hx.Case)) {
 			}
 		}
 	}
+	c11GenChains(ctx, emit)
+	c11GenRootChains(ctx, emit)
+	c11GenRereads(ctx, emit)
+	c11GenOtherKind(ctx, emit)
 	// random stream
-	n := 2500
+	n := 2200
 	if ctx.Thorough() {
 		n = 30000
 	}
 	for i := 0; i < n; i++ {
 		emit(c11RandomCase(ctx.Rng))
+	}
+}
+
+// ---- enumerated: a path item whose target is itself a $ref path item (9b25d89)
+
+func c11GenChains(ctx *hx.Ctx, emit func(hx.Case)) {
+	firsts := []c11Spelling{{"", "/r/a/", true}, {"../b/", "/r/b/", true}, {"sub/", "/r/a/sub/", true}, {"https://h.example/r/a/", "https://h.example/r/a/", true},
+		{"/r/b/", "/r/b/", true}, {"gone/", "", true}}
+	// "#/paths/~1z": a target that sorts LATER in the same document and is itself a reference (not resolved yet when it is copied)
+	seconds := []string{"pi.json", "../c/pi.json", "../c/e.json#/paths/~1y", "#/paths/~1y", "#/paths/~1x", "e.json#/paths/~1nope", "http://other.example/pi.json",
+		"#/paths/~1z", "#/paths/~1zz"}
+	i := 0
+	for _, f := range firsts {
+		for _, sec := range seconds {
+			for _, entry := range []string{"file", "dataWithPath", "data"} {
+				for _, allowed := range []bool{false, true} {
+					for where := 0; where < 3; where++ {
+						i++
+						if !ctx.Thorough() && i%3 != 0 {
+							continue
+						}
+						ref := c11NewEl("pathItem", f.dir+"d.json#/paths/~1x")
+						var rootKid [2]any
+						switch where {
+						case 0:
+							rootKid = kid(ref, "paths", "/x")
+						case 1:
+							rootKid = kid(c11With(c11NewEl("callback", ""), kid(ref, "evt")), "components", "callbacks", "C")
+						default:
+							rootKid = kid(c11With(c11NewEl("pathItem", ""), kid(c11With(c11NewEl("callback", ""), kid(ref, "evt")), "get", "callbacks", "cb1")), "paths", "/p")
+						}
+						files := []any{c11Doc("/r/a/root.json", rootKid)}
+						if f.target != "" {
+							inl := c11With(c11NewEl("pathItem", ""), kid(c11NewEl("parameter", "p.json"), "parameters", "0"))
+							files = append(files, c11Doc(f.target+"d.json", kid(c11NewEl("pathItem", sec), "paths", "/x"), kid(inl, "paths", "/y"),
+								kid(c11NewEl("pathItem", "../c/pi.json"), "paths", "/z"), kid(c11NewEl("pathItem", "../c/e.json#/paths/~1y"), "paths", "/zz")))
+							// second hops, resolved against the first target's location
+							for _, t := range []string{"pi.json", "../c/pi.json"} {
+								loc := c11Resolve(f.target+"d.json", t)
+								files = append(files, c11Elem(loc, "pathItem", kid(c11NewEl("parameter", "p.json"), "parameters", "0")), c11Elem(c11Resolve(loc, "p.json"), "parameter"))
+							}
+							e := c11Resolve(f.target+"d.json", "../c/e.json")
+							files = append(files, c11Doc(e, kid(c11With(c11NewEl("pathItem", ""), kid(c11NewEl("parameter", "q.json"), "parameters", "0")), "paths", "/y")),
+								c11Elem(c11Resolve(e, "q.json"), "parameter"), c11Doc(c11Resolve(f.target+"d.json", "e.json")), c11Elem("/r/a/p.json", "parameter"))
+						}
+						files = c11DedupFiles(files)
+						g := map[string]any{"allowed": allowed, "entry": entry, "root": "/r/a/root.json", "rootInStore": true, "files": files}
+						emit(c11Derive(hx.Case{"g": g}))
+					}
+				}
+			}
+		}
+	}
+}
+
+// c11GenRootChains: the same inside the root document: /x → "#/paths/~1y", /y → a reference (sorts later)
+func c11GenRootChains(ctx *hx.Ctx, emit func(hx.Case)) {
+	for _, sec := range []string{"pi.json", "../b/pi.json", "../b/e.json#/paths/~1y", "http://h.example/r/a/pi.json", "#/paths/~1x", "#/paths/~1z", "gone/pi.json"} {
+		for _, entry := range []string{"file", "dataWithPath", "data"} {
+			for _, allowed := range []bool{false, true} {
+				files := []any{c11Doc("/r/a/root.json", kid(c11NewEl("pathItem", "#/paths/~1y"), "paths", "/x"), kid(c11NewEl("pathItem", sec), "paths", "/y"),
+					kid(c11With(c11NewEl("pathItem", ""), kid(c11NewEl("parameter", "p.json"), "parameters", "0")), "paths", "/z"))}
+				for _, loc := range []string{"/r/a/pi.json", "/r/b/pi.json", "http://h.example/r/a/pi.json", "pi.json", "../b/pi.json"} {
+					files = append(files, c11Elem(loc, "pathItem", kid(c11NewEl("parameter", "p.json"), "parameters", "0")), c11Elem(c11Resolve(loc, "p.json"), "parameter"))
+				}
+				for _, loc := range []string{"/r/b/e.json", "../b/e.json"} {
+					files = append(files, c11Doc(loc, kid(c11With(c11NewEl("pathItem", ""), kid(c11NewEl("parameter", "q.json"), "parameters", "0")), "paths", "/y")),
+						c11Elem(c11Resolve(loc, "q.json"), "parameter"))
+				}
+				g := map[string]any{"allowed": allowed, "entry": entry, "root": "/r/a/root.json", "rootInStore": true, "files": c11DedupFiles(files)}
+				emit(c11Derive(hx.Case{"g": g}))
+			}
+		}
+	}
+}
+
+// c11GenRereads: targets only the raw re-read of componentPath reaches (below a callback; "definitions" of an element file)
+func c11GenRereads(ctx *hx.Ctx, emit func(hx.Case)) {
+	for _, sp := range []c11Spelling{{"", "/r/a/", true}, {"../b/", "/r/b/", true}, {"http://h.example/r/a/", "http://h.example/r/a/", true}, {"#", "", true}} {
+		for _, entry := range []string{"file", "dataWithPath", "data"} {
+			for _, allowed := range []bool{false, true} {
+				cb := c11With(c11NewEl("callback", ""), kid(c11With(c11NewEl("pathItem", ""), kid(c11NewEl("parameter", "p.json"), "parameters", "0")), "evt"))
+				var files []any
+				if sp.dir == "#" {
+					files = []any{c11Doc("/r/a/root.json", kid(c11NewEl("pathItem", "#/components/callbacks/C/evt"), "paths", "/x"), kid(cb, "components", "callbacks", "C")),
+						c11Elem("/r/a/p.json", "parameter"), c11Elem("p.json", "parameter")}
+				} else {
+					files = []any{c11Doc("/r/a/root.json", kid(c11NewEl("pathItem", sp.dir+"d.json#/components/callbacks/C/evt"), "paths", "/x")),
+						c11Doc(sp.target+"d.json", kid(cb, "components", "callbacks", "C")), c11Elem(sp.target+"p.json", "parameter"), c11Elem("/r/a/p.json", "parameter")}
+				}
+				g := map[string]any{"allowed": allowed, "entry": entry, "root": "/r/a/root.json", "rootInStore": true, "files": c11DedupFiles(files)}
+				emit(c11Derive(hx.Case{"g": g}))
+				// an element file whose sub-element refers to the file's own "definitions"
+				sf := c11Elem(sp.target+"s.json", "schema", kid(c11NewEl("schema", "#/definitions/D"), "items"))
+				sf["defs"] = map[string]any{"D": c11With(c11NewEl("schema", ""), kid(c11NewEl("schema", "t.json"), "items"))}
+				if sp.dir != "#" {
+					files = []any{c11Doc("/r/a/root.json", kid(c11NewEl("schema", sp.dir+"s.json"), "components", "schemas", "S")), sf,
+						c11Elem(sp.target+"t.json", "schema"), c11Elem("/r/a/t.json", "schema")}
+					g := map[string]any{"allowed": allowed, "entry": entry, "root": "/r/a/root.json", "rootInStore": true, "files": c11DedupFiles(files)}
+					emit(c11Derive(hx.Case{"g": g}))
+				}
+			}
+		}
+	}
+}
+
+func c11DedupFiles(files []any) []any {
+	seen := map[string]bool{}
+	out := []any{}
+	for _, fa := range files {
+		f, _ := fa.(map[string]any)
+		_, u := c11UrlJSON(jstr(f, "loc"))
+		if u == nil || seen[c11Key(u)] {
+			continue
+		}
+		seen[c11Key(u)] = true
+		out = append(out, f)
+	}
+	return out
+}
+
+// ---- enumerated: a reference text in progress for one kind and met again under another kind (a04fe6c)
+
+func c11GenOtherKind(ctx *hx.Ctx, emit func(hx.Case)) {
+	i := 0
+	for _, K := range []string{"header", "parameter", "requestBody", "response", "callback", "pathItem"} {
+		slots := c11Slots(K)
+		if K == "parameter" {
+			slots = c11ParamGroup(slots, false)
+		}
+		for _, sl := range slots {
+			if sl.kind == "callback" {
+				continue // x.json would be read as a callback: every key of a non-callback file is then parsed as a path item (not modelled)
+			}
+			for shape := 0; shape < 6; shape++ {
+				for _, entry := range []string{"file", "dataWithPath", "data"} {
+					for _, allowed := range []bool{false, true} {
+						i++
+						if !ctx.Thorough() && i%2 != 0 {
+							continue
+						}
+						// x.json: an element of kind K whose sub-element at sl (kind J) is "x.json" again
+						xfile := func(loc string) map[string]any {
+							return c11Elem(loc, K, [2]any{sl.slot, c11NewEl(sl.kind, "x.json")})
+						}
+						slot := []string{"components", c11KindColl[K], "R"}
+						hslot := []string{"components", c11KindColl[K], "H"}
+						frag := "#/components/" + c11KindColl[K] + "/H"
+						if K == "pathItem" {
+							slot, hslot, frag = []string{"paths", "/r"}, []string{"paths", "/h"}, "#/paths/~1h"
+						}
+						var files []any
+						switch shape {
+						case 0: // directly from the root: first walk only
+							files = []any{c11Doc("/r/a/root.json", [2]any{slot, c11NewEl(K, "b/x.json")}), xfile("/r/a/b/x.json"), xfile("/r/a/x.json")}
+						case 1: // through a document in another directory: the second walk resolves against the root
+							files = []any{c11Doc("/r/a/root.json", [2]any{slot, c11NewEl(K, "b/d.json"+frag)}),
+								c11Doc("/r/a/b/d.json", [2]any{hslot, c11NewEl(K, "x.json")}), xfile("/r/a/b/x.json"), c11Elem("/r/a/x.json", sl.kind)}
+						case 2: // the same, everything in one directory
+							files = []any{c11Doc("/r/a/root.json", [2]any{slot, c11NewEl(K, "d.json"+frag)}),
+								c11Doc("/r/a/d.json", [2]any{hslot, c11NewEl(K, "x.json")}), xfile("/r/a/x.json")}
+						case 3: // directly from the root, same text: first walk only
+							files = []any{c11Doc("/r/a/root.json", [2]any{slot, c11NewEl(K, "x.json")}), xfile("/r/a/x.json")}
+						case 4: // through a '#'-reference of the root itself, same text
+							files = []any{c11Doc("/r/a/root.json", [2]any{slot, c11NewEl(K, frag)}, [2]any{hslot, c11NewEl(K, "x.json")}), xfile("/r/a/x.json")}
+						default: // through a '#'-reference of the root itself, another directory (the inner text differs: not in progress)
+							files = []any{c11Doc("/r/a/root.json", [2]any{slot, c11NewEl(K, frag)}, [2]any{hslot, c11NewEl(K, "b/x.json")}),
+								xfile("/r/a/b/x.json"), c11Elem("/r/a/x.json", sl.kind), c11Elem("/r/a/b/b/x.json", sl.kind)}
+						}
+						g := map[string]any{"allowed": allowed, "entry": entry, "root": "/r/a/root.json", "rootInStore": true, "files": files}
+						emit(c11Derive(hx.Case{"g": g}))
+					}
+				}
+			}
+		}
 	}
 }
 
@@ -1164,12 +1590,6 @@ func shrinkC11(c hx.Case) []hx.Case {
 		if f["defs"] != nil {
 			mk(func(g map[string]any) bool {
 				delete(jlist(g["files"])[fi].(map[string]any), "defs")
-				return true
-			})
-		}
-		if f["dead"] != nil {
-			mk(func(g map[string]any) bool {
-				delete(jlist(g["files"])[fi].(map[string]any), "dead")
 				return true
 			})
 		}
